@@ -303,6 +303,11 @@ func buildListChange(k *listKind, w string, variant int, oneLine bool) *gen.Chan
 			gen.L('-', k.Head(0)+strings.Join(me, sep)+tail),
 			gen.L('+', k.Head(0)+strings.Join(append(append([]string{}, pe...), marker), sep)+tail),
 		}
+		if k.PatKind != "stmts" && strings.Count(w, "D") == 1 && strings.Count(pw, "D") == 1 && len(w)%2 == 0 {
+			// the only elision of each side, the '+' line written above the '-' line
+			c.Lines[0], c.Lines[1] = c.Lines[1], c.Lines[0]
+			c.Schema += "-plus-first"
+		}
 		return c
 	}
 	for _, h := range strings.Split(k.Head(0), "\n") {
